@@ -68,10 +68,12 @@ Definition earn (seq : Z) (l : alink) : alink :=
   let keys' := filter (fun k => negb (k =? seq)) (a_keys l) in
   (a_conn l, a_recv l, ref_ack_earned (a_win l) (Z.of_nat (length keys')), keys').
 
-Fixpoint first_holder (seq : Z) (skip : nat) (i : nat) (ls : list alink) : option nat :=
+(** the lowest-numbered holder other than [skip] earns *)
+Fixpoint earn_first (seq : Z) (skip : nat) (i : nat) (ls : list alink) : list alink :=
   match ls with
-  | [] => None
-  | l :: t => if negb (Nat.eqb i skip) && holds seq l then Some i else first_holder seq skip (S i) t
+  | [] => []
+  | l :: t =>
+    if negb (Nat.eqb i skip) && holds seq l then earn seq l :: t else l :: earn_first seq skip (S i) t
   end.
 
 Fixpoint map_at {A} (i : nat) (f : A -> A) (l : list A) : list A :=
@@ -81,13 +83,15 @@ Fixpoint map_at {A} (i : nat) (f : A -> A) (l : list A) : list A :=
   | x :: t, S k => x :: map_at k f t
   end.
 
+Definition ref_global (l : alink) : alink :=
+  (a_conn l, a_recv l, ref_ack_global (a_conn l) (a_recv l) (a_win l), a_keys l).
+
 Definition ref_srtla_ack_one (arrival : nat) (ls : list alink) (seq : Z) : list alink :=
   match nth_error ls arrival with
   | None => ls                           (* no such uplink: not an event *)
   | Some l =>
-    let owner := if holds seq l then Some arrival else first_holder seq arrival O ls in
-    let ls1 := match owner with Some k => map_at k (earn seq) ls | None => ls end in
-    map (fun l => (a_conn l, a_recv l, ref_ack_global (a_conn l) (a_recv l) (a_win l), a_keys l)) ls1
+    let ls1 := if holds seq l then map_at arrival (earn seq) ls else earn_first seq arrival O ls in
+    map ref_global ls1
   end.
 
 Definition ref_srtla_ack (arrival : nat) (ls : list alink) (seqs : list Z) : list alink :=
